@@ -33,6 +33,18 @@ Qed.
 Lemma vector_sort_no_grouping op k g : In op [VectorOpSort; VectorOpSortDesc] -> vector_validate op k (Some g) = false.
 Proof. intros [<-|[<-|[]]]; destruct k; reflexivity. Qed.
 
+(** a token that carries no library result *)
+Definition plain (t : ttype) (s : bytes) : token :=
+  {| ty := t; text := s; v_float := None; v_int := None; v_dur := None; v_bytes := None; v_re := None; v_re_anch := false |}.
+
+(** the text of an operator / punctuation / keyword token: its spelling in the lexer's table (the first one listed; the round-trip
+    proofs never read it, so they hold for whatever text such a token carries -- this choice makes the printed tokens literally
+    the ones the lexer produces, see LexParseP) *)
+Definition spelling (t : ttype) : bytes :=
+  match find (fun kv => ttype_eqb (snd kv) t) keyword_table with Some kv => fst kv | None => [] end.
+Arguments spelling : simpl never.
+Notation punct t := (plain t (spelling t)) (only parsing).
+
 (** * Round trip for stream selectors: parse (print ms) = ms, for every list of matchers *)
 Section Selector.
   Variable anch : bytes -> bool.     (* does  ^(?:v)$  compile?  (library oracle) *)
@@ -40,8 +52,6 @@ Section Selector.
 
   Definition str_tok (v : bytes) : token :=
     {| ty := TString; text := v; v_float := None; v_int := None; v_dur := None; v_bytes := None; v_re := re_names v; v_re_anch := anch v |}.
-  Definition plain (t : ttype) (s : bytes) : token :=
-    {| ty := t; text := s; v_float := None; v_int := None; v_dur := None; v_bytes := None; v_re := None; v_re_anch := false |}.
 
   Definition mop_tok (o : binop) : ttype :=
     match o with OpEq => TEq | OpNotEq => TNotEq | OpRe => TRe | _ => TNotRe end.
@@ -61,17 +71,17 @@ Section Selector.
   Section Cls.
   Variable cls : bytes -> ttype.
   Definition print_matcher (m : matcher) : list token :=
-    [plain (cls (m_label m)) (m_label m); plain (mop_tok (m_op m)) []; str_tok (m_value m)].
+    [plain (cls (m_label m)) (m_label m); punct (mop_tok (m_op m)); str_tok (m_value m)].
 
   Fixpoint print_matchers (ms : list matcher) : list token :=
     match ms with
     | [] => []
     | [m] => print_matcher m
-    | m :: t => print_matcher m ++ plain TComma [] :: print_matchers t
+    | m :: t => print_matcher m ++ punct TComma :: print_matchers t
     end.
 
   Definition print_selector (ms : list matcher) : list token :=
-    plain TOpenBrace [] :: print_matchers ms ++ [plain TCloseBrace []].
+    punct TOpenBrace :: print_matchers ms ++ [punct TCloseBrace].
   End Cls.
 
   Notation as_ident := (fun _ : bytes => TIdent).
@@ -98,8 +108,8 @@ Section Selector.
   Definition wf_lmatcher cls (m : matcher) : Prop := wf_matcher m /\ lbl_ok (cls (m_label m)) (m_label m) = true.
 
   Lemma matchers_loop_print cls ms : forall fuel acc p r, ms <> [] -> Forall (wf_lmatcher cls) ms -> (length ms <= fuel)%nat ->
-    matchers_loop fuel acc {| prev := p; rest := print_matchers cls ms ++ plain TCloseBrace [] :: r |} =
-      POk (acc ++ ms) {| prev := plain TCloseBrace [] :: rev (print_matchers as_ident ms) ++ p; rest := r |}.
+    matchers_loop fuel acc {| prev := p; rest := print_matchers cls ms ++ punct TCloseBrace :: r |} =
+      POk (acc ++ ms) {| prev := punct TCloseBrace :: rev (print_matchers as_ident ms) ++ p; rest := r |}.
   Proof.
     induction ms as [|m t IH]; intros fuel acc p r Hne Hwf Hf; [congruence|].
     inversion Hwf as [|? ? [Hm Hl] Ht]; subst.
@@ -109,8 +119,8 @@ Section Selector.
       unfold bind at 1.
       rewrite (parse_matcher_print m p _ Hm).
       cbn. reflexivity.
-    - change (print_matchers cls (m :: m2 :: t')) with (print_matcher cls m ++ plain TComma [] :: print_matchers cls (m2 :: t')).
-      change (print_matchers as_ident (m :: m2 :: t')) with (print_matcher as_ident m ++ plain TComma [] :: print_matchers as_ident (m2 :: t')).
+    - change (print_matchers cls (m :: m2 :: t')) with (print_matcher cls m ++ punct TComma :: print_matchers cls (m2 :: t')).
+      change (print_matchers as_ident (m :: m2 :: t')) with (print_matcher as_ident m ++ punct TComma :: print_matchers as_ident (m2 :: t')).
       cbn [matchers_loop]. unfold bind at 1.
       rewrite <- app_assoc. rewrite (retype_print cls m p _ Hl). unfold bind at 1.
       rewrite (parse_matcher_print m p _ Hm).
@@ -133,12 +143,12 @@ Section Selector.
   Proof.
     intros Hwf Hf Hnc. destruct fuel as [|f]; [lia|].
     unfold print_selector. cbn [parse_selector app]. unfold bind at 1, next at 1. cbn [rest prev].
-    change (is_ty (plain TOpenBrace []) TOpenParen) with false.
-    change (is_ty (plain TOpenBrace []) TOpenBrace) with true. cbn iota.
+    change (is_ty (punct TOpenBrace) TOpenParen) with false.
+    change (is_ty (punct TOpenBrace) TOpenBrace) with true. cbn iota.
     destruct ms as [|m t].
     - cbn. reflexivity.
     - unfold bind at 1, peek at 1. cbn [rest].
-      assert (exists t0 rest0, (print_matchers cls (m :: t) ++ [plain TCloseBrace []]) ++ r = t0 :: rest0 /\ ty t0 = cls (m_label m)) as [t0 [rest0 [E Et]]].
+      assert (exists t0 rest0, (print_matchers cls (m :: t) ++ [punct TCloseBrace]) ++ r = t0 :: rest0 /\ ty t0 = cls (m_label m)) as [t0 [rest0 [E Et]]].
       { destruct t; cbn; eauto. }
       rewrite E. unfold is_ty. rewrite Et. inversion Hnc as [|? ? Hc ?]; subst. rewrite Hc. cbn iota.
       rewrite <- E. rewrite <- app_assoc. cbn [app].
